@@ -7,6 +7,7 @@
    and [C06_ok_iff_refuted] records the witness of the unguarded statement. *)
 From Coq Require Import String.
 From NC Require Import Model.Base Model.Lit Model.RpcErrors Spec.RpcErrorsSpec Proofs.BaseFacts Proofs.RpcErrorsProofs.
+From NC Require Import Model.ConnectHistory Spec.ConnectHistorySpec Proofs.ConnectHistoryProofs.
 
 (* The error list is the list of the reply's rpc-error elements, in document order, each mirrored
    field by field (type, tag, app-tag, severity, info, path, message; last child of a name wins). *)
@@ -108,6 +109,47 @@ Theorem C06_profile_or_user : forall profile user m,
 Proof. exact c06_profile_or_user. Qed.
 Print Assumptions C06_profile_or_user.
 
+(* ---------- histories of connects that share the caller's dictionaries (Model/ConnectHistory.v) ---------- *)
+(* A connect (any route, refused or not) hands the caller's objects on as they were; so does a whole history. *)
+Theorem C06_connect_frame : forall profiles p st, fst (connect_step profiles p st) = p.
+Proof. exact c06_connect_frame. Qed.
+Print Assumptions C06_connect_frame.
+
+Theorem C06_history_frame : forall profiles p steps, fst (run_history profiles p steps) = p.
+Proof. exact c06_history_frame. Qed.
+Print Assumptions C06_history_frame.
+
+(* The k-th result of a history is what that connect alone gives on the untouched objects: nothing an earlier connect
+   did (other mode, other patterns, other handler class, a refused attempt) reaches a later one. *)
+Theorem C06_history_independent : forall profiles p steps,
+  snd (run_history profiles p steps) = map (fun st => snd (connect_step profiles p st)) steps.
+Proof. exact c06_history_independent. Qed.
+Print Assumptions C06_history_independent.
+
+(* The k-th manager of any history carries the caller's profile list + his patterns and his mode, decides as the
+   connect-style composition [call_outcome], and raises exactly when the property sentence says so. *)
+Theorem C06_history_decision : forall profiles p steps k st m root,
+  nth_error steps k = Some st ->
+  by_hand_ok p st ->
+  nth_error (snd (run_history profiles p steps)) k = Some (Connected m) ->
+  exists ex, asked_profile profiles (arg p (s_dp st)) = Some ex /\
+    mgr_outcome m root =
+      call_outcome ex (Some (asked_user (arg p (s_ep st)))) (Some (asked_mode (arg p (s_ep st)))) root /\
+    (Forall modelled_text (ex ++ asked_user (arg p (s_ep st))) ->
+     raises (mgr_outcome m root) =
+       should_raise (asked_mode (arg p (s_ep st))) (parse_errors root) (ex ++ asked_user (arg p (s_ep st)))).
+Proof. exact c06_history_decision. Qed.
+Print Assumptions C06_history_decision.
+
+(* Two connects of one history that pass the same objects the same way end alike (same manager, or both refused). *)
+Theorem C06_history_same_params : forall profiles p steps j k sj sk,
+  nth_error steps j = Some sj -> nth_error steps k = Some sk ->
+  s_route sj = s_route sk -> s_dp sj = s_dp sk -> s_mp sj = s_mp sk -> s_ep sj = s_ep sk ->
+  s_timeout sj = s_timeout sk -> s_fail sj = s_fail sk ->
+  nth_error (snd (run_history profiles p steps)) j = nth_error (snd (run_history profiles p steps)) k.
+Proof. exact c06_history_same_params. Qed.
+Print Assumptions C06_history_same_params.
+
 (* ---------- non-vacuity ---------- *)
 Definition B (s : string) : bytes := lit s.
 Definition el (local : string) (text : option bytes) (kids : list node) : node :=
@@ -154,4 +196,34 @@ Proof.
                               ltac:(dom)
                               ltac:(dom))) in H. vm_compute in H. discriminate.
   - dom.
+Qed.
+
+(* a retry loop with a custom handler class, then a second device and a manager built by hand, all over the same
+   dictionaries: object 1 = device_params {handler: class 7 with ["*already exists*"]}, 2 = manager_params {timeout: 5},
+   3 = errors_params {raise_mode: ERRORS, ignore_errors: ["lock held*"]} *)
+Definition ex_pool : pool :=
+  [ (1, [(k_handler, PHandler 7 [B "*already exists*"]); (B "site", PStr (B "lab"))]);
+    (2, [(k_timeout, PNum 5)]);
+    (3, [(k_raise_mode, PNum MODE_ERRORS); (k_ignore_errors, PStrs [B "lock held*"])]) ].
+Definition ex_steps : list step :=
+  [ mkStep 1 (Some 1) (Some 2) None (Some 3) None true;      (* connect_ssh, refused *)
+    mkStep 1 (Some 1) (Some 2) None (Some 3) None false;     (* the retry *)
+    mkStep 2 (Some 1) (Some 2) None None (Some 9) false;     (* connect_tls, no errors_params: mode ALL *)
+    mkStep 0 (Some 1) (Some 2) None None None false ].       (* by hand: Manager(s, dh, **manager_params) *)
+Definition ex_profiles : list (bytes * list bytes) := [(k_default, [])].
+
+Example C06_ex_history :
+  run_history ex_profiles ex_pool ex_steps =
+    (ex_pool, [ ConnectRaised;
+                Connected (mkMgr [B "*already exists*"; B "lock held*"] MODE_ERRORS 5);
+                Connected (mkMgr [B "*already exists*"] MODE_ALL 5);
+                Connected (mkMgr [B "*already exists*"] MODE_ALL 5) ]) /\
+  Forall (by_hand_ok ex_pool) ex_steps /\
+  (let m := mkMgr [B "*already exists*"] MODE_ALL 5 in
+   mgr_outcome m (el "rpc-reply" None [err_el "error" "VLAN 17: Object ALREADY exists"]) = Return /\
+   raises (mgr_outcome m (el "rpc-reply" None [err_el "warning" "disk nearly full"])) = true).
+Proof.
+  split; [vm_compute; reflexivity|]. split.
+  - repeat constructor; unfold by_hand_ok; vm_compute; intros; try reflexivity; discriminate.
+  - vm_compute. split; reflexivity.
 Qed.
